@@ -9,8 +9,8 @@ from ._sim_common import frac, summarize
 
 ID = "C06"
 RULE = ("Hypothesis generates session lists whose cumulative lengths straddle 99/100/101 and 199/200/201 (<=230 steps quick, "
-        "<=450 thorough), 1-3 markets plus an optional index market, scripted agents, a fundamental price shock and optionally "
-        "a trading halt rule. A probe event runs before every market step: every single-time getter is asked for now+1 and "
+        "<=450 thorough), 1-3 markets plus an optional index market, scripted agents, a fundamental price shock, optionally "
+        "a trading halt rule and (one run in three) a user event that changes a drift in mid-run. A probe event runs before every market step: every single-time getter is asked for now+1 and "
         "now+k (k in 2..250), every series getter for [0, now+k], the index getters for now+1 -- each must refuse (raise); the full series for times < now is compared (None/NaN-aware, exactly) with the snapshot of the "
         "previous step. From the trace: all markets report one time at every observation, step i reads time i, sessions span "
         "exactly iterationSteps steps starting at Session.session_start_time. Non-trivial = run crossing a 100-step chunk "
@@ -45,6 +45,10 @@ def cases(draw, tier):
                  "scripts": [[[["L", i, True, 1, 1, 3]] for i in range(len(allm))] + [[["L", i, False, -1, 1, 3]] for i in range(len(allm))]]}
     cfg["simulation"]["agents"].append("B0")
     cfg["SNAP"] = {"class": "VSnapEvent", "hooks": [["market", True, None, None, None], ["market", False, None, None, None]]}
+    if draw(st.integers(0, 2)) == 0:
+        # a user-written event that changes the drift of a fundamental process in mid-run (with the method's default time, or now)
+        cfg["SNAP"]["fundamentalChange"] = {"at": draw(st.integers(1, max(1, min(total - 1, 60)))), "market": draw(st.sampled_from(names)),
+                                            "drift": draw(st.sampled_from([0.01, -0.005])), "now": draw(st.booleans())}
     events = ["SNAP"]
     if draw(st.booleans()):
         cfg["SH"] = {"class": "FundamentalPriceShock", "target": draw(st.sampled_from(names)), "triggerTime": draw(st.integers(0, max(0, total - 1))),
@@ -124,6 +128,8 @@ def check_case(case):
         classes.append("crosses_200")
     if fills_t:
         classes.append("fills")
+    if tr.counters.get("fundamental_changes"):
+        classes.append("fundamental_parameter_changed")
     return CaseInfo(nontrivial=crossed, classes=classes, steps=A.total_steps,
                     sample={"sessions": [s["iterationSteps"] for s in A.sess_cfg], "markets": case["config"]["simulation"]["markets"],
                             "future_probes_refused": tr.counters.get("future_refused", 0), "fills": len(fills_t), "seed": case["seed"]})
